@@ -56,8 +56,12 @@
 #define ELEN 2			/* entry names delivered by the wrapped iterators */
 #define NFRAMES (DEPTH + 1)	/* frames that can exist: stack + pending */
 #define MAXPATH (NFRAMES * (NLEN + 1) + ELEN + 1)
-#define MAXDOTS 2
-#define MAXCALLS (NFRAMES + MAXDOTS + 1)
+#ifndef MAXDOTS
+#define MAXDOTS 1
+#endif
+/* reads of wrapped iterators in one call: one "end" per frame, the dot
+ * entries, the entry yielded (or the error) */
+#define MAXCALLS (DEPTH + HAS_NEXT + MAXDOTS + 1)
 
 #ifdef VERIF_REPLAY
 #define realloc w11_realloc
@@ -65,6 +69,73 @@ void *w11_realloc(void *p, size_t n);
 #endif
 
 #include "lib/sqfs/src/io/dir_rec.c"
+
+/* C library string functions on the few short strings of this harness: plain
+ * byte loops with the standard semantics (cbmc's built-in models go through
+ * whole-object array copies, which cost two orders of magnitude here) */
+#ifndef VERIF_REPLAY
+size_t strlen(const char *s)
+{
+	size_t n = 0;
+
+	while (s[n] != '\0')
+		++n;
+	return n;
+}
+
+int strcmp(const char *a, const char *b)
+{
+	size_t i = 0;
+
+	while (a[i] != '\0' && a[i] == b[i])
+		++i;
+	return (int)*(const unsigned char *)&a[i] - (int)*(const unsigned char *)&b[i];
+}
+
+char *strcpy(char *dst, const char *src)
+{
+	size_t i = 0;
+
+	do {
+		dst[i] = src[i];
+	} while (src[i++] != '\0');
+	return dst;
+}
+
+char *strrchr(const char *s, int c)
+{
+	const char *last = NULL;
+	size_t i = 0;
+
+	do {
+		if (s[i] == (char)c)
+			last = s + i;
+	} while (s[i++] != '\0');
+	return (char *)last;
+}
+
+void *memcpy(void *dst, const void *src, size_t n)
+{
+	size_t i;
+
+	for (i = 0; i < n; ++i)
+		((char *)dst)[i] = ((const char *)src)[i];
+	return dst;
+}
+
+void *memmove(void *dst, const void *src, size_t n)
+{
+	char tmp[MAXPATH + 1];
+	size_t i;
+
+	VERIF_ASSERT(n <= sizeof(tmp), "C11.rec.env.memmove_pre");
+	for (i = 0; i < n; ++i)
+		tmp[i] = ((const char *)src)[i];
+	for (i = 0; i < n; ++i)
+		((char *)dst)[i] = tmp[i];
+	return dst;
+}
+#endif
 
 /* ---- typed objects --------------------------------------------------------- */
 struct frame {
@@ -161,7 +232,7 @@ static int stub_next(sqfs_dir_iterator_t *it, sqfs_dir_entry_t **out)
 		else
 			VERIF_ASSUME(c != 0 && c != '/');
 		((unsigned char *)d->e.name)[k] = c;
-		g_last_name[k] = (char)c;
+		((unsigned char *)g_last_name)[k] = c;
 	}
 	if (is_dot(g_last_name)) {
 		++g_dots;
@@ -183,6 +254,7 @@ static int stub_open_subdir(sqfs_dir_iterator_t *it, sqfs_dir_iterator_t **out)
 	g_open_on = sub_id(it);
 	++g_open_calls;
 	r = verif_nd_int("sub.open.ret");
+	VERIF_ASSUME(r <= 0);	/* sqfs/io.h: zero or a negative SQFS_ERROR */
 	if (r != 0) {
 		g_err = r;
 		*out = NULL;
@@ -264,7 +336,13 @@ void *alloc_flex(size_t base_size, size_t item_size, size_t nmemb)
 	}
 	f = malloc(sizeof(*f));
 	VERIF_ASSUME(f != NULL);
-	memset(f, 0, sizeof(*f));
+	f->s.next = NULL;
+	f->s.dir = NULL;
+	{
+		size_t k;
+		for (k = 0; k <= NLEN; ++k)
+			f->s.name[k] = '\0';
+	}
 	return f;
 }
 
@@ -291,8 +369,8 @@ static struct frame *mkframe(int i, struct frame *below)
 			c = 0;
 		else
 			VERIF_ASSUME(c != 0 && c != '/');
-		g_fname[i][k] = (char)c;
-		f->s.name[k] = (char)c;
+		((unsigned char *)g_fname[i])[k] = c;
+		((unsigned char *)f->s.name)[k] = c;
 	}
 	f->s.next = below ? &below->s : NULL;
 	f->s.dir = &g_sub[i].base;
@@ -324,7 +402,6 @@ static void setup(void)
 	}
 	g_it = malloc(sizeof(*g_it));
 	VERIF_ASSUME(g_it != NULL);
-	memset(g_it, 0, sizeof(*g_it));
 	sqfs_object_init(g_it, destroy, NULL);
 	g_it->base.next = next;
 	g_it->base.read_link = read_link;
@@ -408,6 +485,12 @@ void harness(void)
 
 	VERIF_ASSERT((ret == 0) == (out != NULL) && g_it->state == ret,
 		     "C11.rec.next.zero_iff_entry");
+	if ((ret == 0) != (out != NULL)) {
+		/* already reported; keep the rest of the postcondition from
+		 * dereferencing a missing entry */
+		finish(out);
+		return;
+	}
 #if HAS_NEXT
 	/* the pending directory is entered first: whatever was read first was
 	 * read from it (it sits at index DEPTH) */
